@@ -1169,3 +1169,69 @@ N('c16-name-spec-equivalent', 'C16', LEX,
   "    _NAME_SPEC = r'[a-zA-Z_][a-zA-Z0-9_]*'", "    _NAME_SPEC = r'[_A-Za-z][0-9A-Z_a-z]*'")
 N('c16-punct-reordered', 'C16', LEX,
   r"    _NON_ALNUM_SPEC = r'==|<=|>=|[\[\]\(\){}+\-*<>/%#:\^]'", r"    _NON_ALNUM_SPEC = r'==|<=|>=|[%\[\]\(\){}+\-*<>/#:\^]'")
+
+# ------------------------------------------------------------------ C17
+B('c17-token-not-reset', 'C17', 'R17.a', PARSE,
+  "        self._current_token = Token(TokenTypes.UNKNOWN)\n        self.next_token()\n        return self._script()",
+  "        self.next_token()\n        return self._script()")
+B('c17-in-matrix-not-reset', 'C17', 'R17.a', CONTEXT,
+  "        self._in_routine = False\n        self._in_matrix = False\n        self._globals.clear()",
+  "        self._in_routine = False\n        self._globals.clear()")
+B('c17-codegen-not-cleared', 'C17', 'R17.a', PARSE,
+  "        self._context.clear()\n        self._code_gen.clear()\n", "        self._context.clear()\n")
+B('c17-locals-not-cleared', 'C17', 'R17.a', CONTEXT,
+  "        self._globals.clear()\n        self._locals.clear()\n        self._loop_stack.clear()",
+  "        self._globals.clear()\n        self._loop_stack.clear()")
+B('c17-loop-stack-not-cleared', 'C17', 'R17.a', CONTEXT,
+  "        self._locals.clear()\n        self._loop_stack.clear()", "        self._locals.clear()")
+B('c17-errors-not-reset', 'C17', 'R17.a', PARSE,
+  "        self._error_output = ''\n        self._load_runtime()", "        self._load_runtime()")
+B('c17-registers-not-reset', 'C17', 'R17.a', MACHINE,
+  "    def reset(self) -> None:\n        self._reg.reset()\n", "    def reset(self) -> None:\n")
+B('c17-eval-stack-not-reset', 'C17', 'R17.a', MACHINE,
+  "        self._vm_math.reset()\n", "")
+B('c17-call-stack-not-reset', 'C17', 'R17.a', MACHINE,
+  "        self._call_stack.reset(self._constants)\n", "")
+B('c17-enable-pause-sticky', 'C17', 'R17.a', MACHINE,
+  "        self._keep_running = True\n        self._enable_pause = True\n\n    def run",
+  "        self._keep_running = True\n\n    def run")
+B('c17-flush-not-in-finally', 'C17', 'R17.a', MACHINE,
+  """        finally:
+            self._clock.stop()
+            self._vm_io.flush()""",
+  """            self._vm_io.flush()
+        finally:
+            self._clock.stop()""")
+B('c17-clock-armed-in-thread', 'C17', 'R17.a', CLOCK,
+  """        self.reset()
+        self._keep_going = True
+        threading.Thread(target=self.run, args=(), daemon=True).start()
+
+    @injection.inject(i_lib.Settings)
+    def run(self, settings):
+        sleep_time""",
+  """        self.reset()
+        threading.Thread(target=self.run, args=(), daemon=True).start()
+
+    @injection.inject(i_lib.Settings)
+    def run(self, settings):
+        self._keep_going = True
+        sleep_time""")
+B('c17-class-level-cache', 'C17', 'R17.b', CODEGEN,
+  """    def add_instruction(self, op_code, param0=None, param1=None) -> Instruction:
+        inst = Instruction(op_code, param0, param1)""",
+  """    def add_instruction(self, op_code, param0=None, param1=None) -> Instruction:
+        CodeGen.last_op = op_code
+        inst = Instruction(op_code, param0, param1)""")
+B('c17-vm-nops-instruction', 'C17', 'R17.c', MACHINE,
+  "    def _nop(self) -> None: pass", "    def _nop(self) -> None: self.current_inst.nop()")
+B('c17-vm-patches-operand', 'C17', 'R17.c', MACHINE,
+  "        self._constants[name] = value\n", "        self._constants[name] = value\n        self.current_inst.param1 = None\n")
+B('c17-run-without-reset', 'C17', 'R17.c', SCRIPTJOB,
+  "            self._machine.reset()\n            self._machine.run(self._program)",
+  "            self._machine.run(self._program)")
+N('c17-clear-order', 'C17', PARSE,
+  "        self._context.clear()\n        self._code_gen.clear()\n        self._error_output = ''",
+  "        self._error_output = ''\n        self._code_gen.clear()\n        self._context.clear()")
+N('c17-reset-order', 'C17', MACHINE,
+  "        self._reg.reset()\n        self._constants.clear()", "        self._constants.clear()\n        self._reg.reset()")
